@@ -881,6 +881,10 @@ def generate():
     cs = set(cert_idx)
     text.append("Definition nonnull_cert : list bool := [%s]." % "; ".join("true" if i in cs else "false" for i in range(len(em.index) + len(em.extra))))
     text.append("Definition all_prims : list N := map N.of_nat (seq 0 %d)." % len(em.prims))
+    # look-ahead primitives: none_of(..) consumes any byte outside its set -- also one that no token can contain; the
+    # grammar uses it under peek only (Nom/BoundPk.v checks that), e.g. behind every keyword
+    peek = sorted(i for d, i in em.prims.items() if d[0] == "none_of" or (d[0] == "lex" and d[1] == "none_of"))
+    text.append("Definition peek_prims : list N := [%s]%%N." % "; ".join(str(i) for i in peek))
     ntot = len(em.index) + len(em.extra)
     byidx = {i: n for n, i in em.index.items()}
     for nm_, cset in (("dir_neutral_cert", dir_cert), ("ver_neutral_cert", ver_cert)):
